@@ -444,6 +444,17 @@ class World:
                     self.failf("refine:list.setitem-out-of-range-no-IndexError", "%r -> %r" % (a, e))
         elif f == "setslice":
             sl = _slice(op)
+            if op.get("perm") is not None and model[sl]:
+                # assign a rotation of what the slice holds now, optionally with
+                # one member swapped for an outsider: sizes always match
+                cur = model[sl]
+                r = op["perm"] % len(cur)
+                ms = cur[r:] + cur[:r]
+                if op["perm"] % 3 == 2 and op.get("ms"):
+                    extra = [m % nm for m in op["ms"] if (m % nm) not in ms]
+                    extra = self.movable("mod", extra[:1], "ir", ii)
+                    if extra:
+                        ms = ms[:-1] + extra
             seq = [self.obj("mod", m) for m in ms]
             if len(set(ms)) != len(ms):
                 raise Skip()
